@@ -66,6 +66,10 @@ def tokBytes (t : String) : Option Bytes :=
     some (List.replicate 3000 0xEF ++ t.toUTF8.toList)
   else unhex t
 
+/-- length of a content for messages (placeholders stand for contents too long to print) -/
+def descrLen (b : Bytes) : String :=
+  if b.length ≤ 2048 then s!"{b.length}-bytes" else "long-content-see-trace"
+
 inductive Res where
   | done (ok : Bool)
   | got (o : Option (Option Bytes))   -- none = error, some none = not found, some (some b) = bytes
@@ -183,18 +187,18 @@ def judgeCase (_k : Nat) (lines : List String) : Verdict := Id.run do
           stats := bump "get_live_ok" stats
         else
           let ctx := if hasEc && tinksBelowEc ≥ 2 && b.isEmpty then ".empty-result.double-tink-below-erasure-coding" else ""
-          vio := vio ++ [("C15.get-returned-different-bytes" ++ ctx, s!"op{idx}:get-{i}:expected-{c.length}-bytes,got-{b.length}-bytes")]
+          vio := vio ++ [("C15.get-returned-different-bytes" ++ ctx, s!"op{idx}:get-{i}:expected-{descrLen c},got-{descrLen b}")]
       | some c, some none =>
         let ctx := if c.isEmpty && emptyReachesSql then ".empty-content-reaches-sql-store" else ""
-        vio := vio ++ [("C15.live-part-not-found" ++ ctx, s!"op{idx}:get-{i}:live-part-of-{c.length}-bytes-answered-not-found")]
+        vio := vio ++ [("C15.live-part-not-found" ++ ctx, s!"op{idx}:get-{i}:live-part-of-{descrLen c}-answered-not-found")]
       | some c, none =>
         let ctx := if tinks ≥ 2 then ".double-tink" else ""
-        vio := vio ++ [("C15.live-part-read-error" ++ ctx, s!"op{idx}:get-{i}:live-part-of-{c.length}-bytes-failed-to-read")]
+        vio := vio ++ [("C15.live-part-read-error" ++ ctx, s!"op{idx}:get-{i}:live-part-of-{descrLen c}-failed-to-read")]
       | none, some none => stats := bump "get_absent_nf" stats
       | none, some (some b) =>
         ghosted := i :: ghosted
         let ctx := if hasEc && b.isEmpty then ".empty-result-through-erasure-coding" else ""
-        vio := vio ++ [("C15.absent-part-readable" ++ ctx, s!"op{idx}:get-{i}:absent-part-answered-{b.length}-bytes")]
+        vio := vio ++ [("C15.absent-part-readable" ++ ctx, s!"op{idx}:get-{i}:absent-part-answered-{descrLen b}")]
       | none, none =>
         let ctx := if hasEc && tinks ≥ 2 && ghosted.contains i then ".ghost-part-behind-double-tink" else ""
         vio := vio ++ [("C15.absent-part-error-instead-of-not-found" ++ ctx, s!"op{idx}:get-{i}")]
